@@ -27,6 +27,21 @@ def vg(name, entry, funcs, props, weave_funcs=None, **kw):
     return d
 
 ALLP = ['C10', 'C11', 'C12', 'C14', 'C15']
+def c13(groups):
+    """C13 overlay: the same contracts with shared state poisoned outside the critical section (thread-safe vectors, OBJSIZE 4)"""
+    out = []
+    for g in groups:
+        if g['name'] in ('vector_ctor_free',):
+            continue
+        h = dict(g)
+        h['name'] = g['name'].replace('vector_', 'vector_c13_')
+        h['props'] = ['C13']
+        h['defines'] = list(g.get('defines', [])) + ['-DQV_C13']
+        h['instances'] = [i for i in g['instances'] if i.get('OBJSIZE') == 4]
+        out.append(h)
+    return out
+
+
 GROUPS = [
     vg('addat', 'h_addat', ['qvector_addat', 'qvector_addfirst', 'qvector_addlast', 'qvector_resize'], ALLP, ['qvector_addat'], instances=var(SIZES, 3)),
     vg('getat', 'h_getat', ['qvector_getat', 'qvector_getfirst', 'qvector_getlast', 'get_at'], ALLP, instances=var(SIZES, 3)),
@@ -39,3 +54,4 @@ GROUPS = [
     vg('getnext', 'h_getnext', ['qvector_getnext'], ALLP, instances=SIZES),
     vg('ctor_free', 'h_ctor_free', ['qvector', 'qvector_free', 'qvector_clear'], ['C10', 'C11', 'C14', 'C15'], flags=['--memory-leak-check'], instances=[dict(OBJSIZE=4)]),
 ]
+GROUPS = GROUPS + c13(GROUPS)
